@@ -25,6 +25,23 @@ fn order_cfg(w: usize) -> SpaceCfg {
     }
 }
 
+/// one element name, three attribute names as sequences: several new attributes at once, in any
+/// position relative to known ones
+fn attr_cfg(w: usize) -> SpaceCfg {
+    SpaceCfg {
+        root: "r".into(),
+        enames: vec!["b".into()],
+        anames: vec!["y".into(), "x".into(), "z".into()],
+        attr_seq: true,
+        max_attrs: 3,
+        depth: 2,
+        kinds: vec![],
+        both_empty: false,
+        root_attrs: false,
+        max_weight: w,
+    }
+}
+
 pub fn judge(docs: &[&DocEntry], el: &Element<String>, rank: u64) -> Vec<Violation> {
     let mut out = Vec::new();
     let mk = |class: &str, msg: String| Violation {
@@ -87,8 +104,9 @@ pub fn judge(docs: &[&DocEntry], el: &Element<String>, rank: u64) -> Vec<Violati
 
 pub fn run(ctx: &Ctx) {
     ctx.set("exhaustive", json!(true));
-    let w = ctx.tier.pick(4, 5);
-    let cfg = order_cfg(w);
+    let mut total_evals = 0u64;
+    let mut all_distinct: HashSet<u64> = HashSet::new();
+    for cfg in [order_cfg(ctx.tier.pick(4, 5)), attr_cfg(ctx.tier.pick(7, 8))] {
     let describe = cfg.describe();
     let sp = Space::new(cfg);
     let res = par_for(
@@ -128,18 +146,18 @@ pub fn run(ctx: &Ctx) {
             }
         },
     );
-    let mut distinct: HashSet<u64> = HashSet::new();
     for a in res.accs {
-        distinct.extend(a);
+        all_distinct.extend(a);
     }
-    ctx.set("evaluations", json!(res.processed));
-    ctx.set("distinct_nontrivial", json!(distinct.len()));
-    ctx.set("single_document_space", json!(describe));
-    ctx.set("single_documents", json!({"space_size": sp.len(), "visited": res.processed}));
+    total_evals += res.processed;
+    ctx.push("single_document_spaces", json!({"space": describe, "size": sp.len(), "visited": res.processed}));
     if !res.complete {
         ctx.set("exhaustive", json!(false));
-        ctx.set("cap", json!(format!("wall budget: {} of {} single documents", res.processed, sp.len())));
+        ctx.push("caps", json!(format!("wall budget: {} of {} single documents", res.processed, sp.len())));
     }
+    }
+    ctx.set("evaluations", json!(total_evals));
+    ctx.set("distinct_nontrivial", json!(all_distinct.len()));
     let searches: Vec<(usize, usize)> = ctx.tier.pick(vec![(2, 3)], vec![(2, 5), (3, 2)]);
     for (aw, depth) in searches {
         let alphabet = materialise(order_cfg(aw));
@@ -164,9 +182,10 @@ pub fn run(ctx: &Ctx) {
         let stats = search.run();
         record_bfs(ctx, &format!("extend over order-sensitive documents of weight <= {}", aw), &stats, events.len(), depth);
     }
+    names_part(ctx);
     ctx.set(
         "rule",
-        json!("order-sensitive document space (attributes: every duplicate-free sequence over {y,x,z}; children over {b,a,c}, alphabets deliberately not in alphabetical order). (a) every single document; (b) breadth-first search over extend_struct. For every history both sort options are rendered: unsorted must list attributes, text, children in first-appearance order of the DOM reference, sort-by-name in ascending XML name; struct definitions in pre-order of that field order; the two renderings must contain the same structs and fields. distinct_nontrivial = distinct reference schemas with a position holding >= 2 attributes or >= 2 children"),
+        json!("order-sensitive document space (attributes: every duplicate-free sequence over {y,x,z}; children over {b,a,c}, alphabets deliberately not in alphabetical order). (a) every single document; (b) breadth-first search over extend_struct. For every history both sort options are rendered: unsorted must list attributes, text, children in first-appearance order of the DOM reference, sort-by-name in ascending XML name; struct definitions in pre-order of that field order; the two renderings must contain the same structs and fields. (c) small trees over 2-subsets of a pool with prefixed, case-variant, keyword and non-ASCII names (sorting is by the full XML name), as one document and split into two. distinct_nontrivial = distinct reference schemas with a position holding >= 2 attributes or >= 2 children"),
     );
 }
 
@@ -189,5 +208,51 @@ pub fn replay(ctx: &Ctx, case: &Value) {
     }
     if seen[0] != seen[1] {
         ctx.machinery_error("replay is not deterministic".into());
+    }
+}
+
+/// (c) names whose full-name order differs from their local-name / identifier order
+fn names_part(ctx: &Ctx) {
+    use super::names::*;
+    let wanted = ["x:b", "a:c", "b:k", "a:z", "a", "b", "Foo", "foo", "type", "ns:a", "é", "a-b", "B"];
+    let mut names: Vec<PoolName> = Vec::new();
+    for w in wanted {
+        names.push(PoolName { name: w, category: "order", element: true });
+    }
+    let subs = subsets(names.len(), 2);
+    let params = TreeParams { min_nodes: 1, max_nodes: ctx.tier.pick(3, 4), max_decorated: 1, root_from_subset: false, shard: (0, 1) };
+    let res = par_for(
+        subs.len() as u64,
+        ctx.threads,
+        1,
+        Some(ctx.deadline),
+        |_| 0u64,
+        |acc, si| {
+            let subset: Vec<PoolName> = subs[si as usize].iter().map(|&i| names[i]).collect();
+            let mut local = 0u64;
+            for_each_tree(&subset, &params, &mut |root| {
+                local += 1;
+                let rank = (1 << 50) | (si << 24) | local.min(0xff_ffff);
+                let mut histories: Vec<Vec<DocEntry>> = vec![vec![DocEntry::from_root(root.clone())]];
+                for at in 1..root.children().count() {
+                    if let Some((a, b)) = split(root, at) {
+                        histories.push(vec![DocEntry::from_root(a), DocEntry::from_root(b)]);
+                    }
+                }
+                for h in histories {
+                    let refs: Vec<&DocEntry> = h.iter().collect();
+                    *acc += 1;
+                    if let Ok(el) = run_history(&refs) {
+                        ctx.report_all(judge(&refs, &el, rank));
+                    }
+                }
+            });
+        },
+    );
+    let evals: u64 = res.accs.iter().sum();
+    ctx.add("evaluations", evals);
+    ctx.set("named_trees", json!({"names": wanted, "subsets": subs.len(), "subsets_done": res.processed, "nodes_max": params.max_nodes, "histories": evals}));
+    if !res.complete {
+        ctx.set("exhaustive", json!(false));
     }
 }
